@@ -15,7 +15,7 @@ SHARING_CALLS = {"copy", "deepcopy", "asfortranarray", "ascontiguousarray", "asa
                  "squeeze", "to_memory_order", "ravel", "flatten", "astype", "view", "tensor", "ktensor", "tenmat",
                  "sptensor", "ttensor", "sumtensor", "sptenmat", "normalize", "insert", "hstack", "diag", "item",
                  "tt_subsubsref", "list"}
-STATE_ATTRS = {"data", "subs", "vals", "weights", "factor_matrices", "rindices", "cindices"}
+STATE_ATTRS = {"data", "subs", "vals", "weights", "factor_matrices", "rindices", "cindices", "core"}
 
 # (module, class or None, function)
 FUNCTIONS = [("pyttb.tensor", "tensor", "__init__"), ("pyttb.tensor", "tensor", "copy"), ("pyttb.tensor", "tensor", "permute"),
@@ -25,7 +25,11 @@ FUNCTIONS = [("pyttb.tensor", "tensor", "__init__"), ("pyttb.tensor", "tensor", 
              ("pyttb.sptensor", "sptensor", "__init__"), ("pyttb.sptensor", "sptensor", "copy"), ("pyttb.sptensor", "sptensor", "find"),
              ("pyttb.ktensor", "ktensor", "__init__"), ("pyttb.ktensor", "ktensor", "copy"), ("pyttb.ktensor", "ktensor", "extract"),
              ("pyttb.ktensor", "ktensor", "tolist"),
-             ("pyttb.khatrirao", None, "khatrirao"), ("pyttb.pyttb_utils", None, "to_memory_order")]
+             ("pyttb.khatrirao", None, "khatrirao"), ("pyttb.pyttb_utils", None, "to_memory_order"),
+             # wave 4 (Model/C05View2.v)
+             ("pyttb.tenmat", "tenmat", "to_tensor"), ("pyttb.tenmat", "tenmat", "ctranspose"), ("pyttb.tenmat", "tenmat", "double"),
+             ("pyttb.ttensor", "ttensor", "__init__"), ("pyttb.ttensor", "ttensor", "copy"),
+             ("pyttb.sptenmat", "sptenmat", "__init__"), ("pyttb.sptenmat", "sptenmat", "copy")]
 
 
 def _callname(f):
@@ -247,4 +251,63 @@ EXPECTED = {'pyttb.khatrirao.khatrirao': ['call matrices[0].copy()',
                                    'call np.reshape(order=self.order)',
                                    'call ttb.tenmat(tshape=tshape,copy=copy)',
                                    'return ttb.tenmat(data, rdims, cdims, tshape=tshape, copy=copy)']}
+#EXPECTED-W4-BEGIN (wave 4: recorded 2026-09-30 from /repo HEAD)
+EXPECTED.update({'pyttb.sptenmat.sptenmat.__init__': ['call np.array(ndmin=2,dtype=int)',
+                                      'store self.subs = np.array([], ndmin=2, dtype=int)',
+                                      'call np.array(ndmin=2)',
+                                      'store self.vals = np.array([], ndmin=2)',
+                                      'call np.array(dtype=int)',
+                                      'call np.array(dtype=int)',
+                                      'return ',
+                                      'call np.array(ndmin=2,dtype=int)',
+                                      'call np.array(ndmin=2)',
+                                      'call np.array()',
+                                      'call cdims.copy()',
+                                      'call rdims.copy()',
+                                      'call np.hstack(dtype=int)',
+                                      'call np.array()',
+                                      'call np.array()',
+                                      'call np.array()',
+                                      'call np.array()',
+                                      'call loc.flatten()',
+                                      'call np.squeeze(axis=1)',
+                                      'call rdims.copy()',
+                                      'call rdims.copy().astype()',
+                                      'call cdims.copy()',
+                                      'call cdims.copy().astype()',
+                                      'store self.subs = newsubs',
+                                      'store self.vals = newvals',
+                                      'store self.subs = newsubs',
+                                      'store self.vals = newvals'],
+ 'pyttb.sptenmat.sptenmat.copy': ['call sptenmat(copy=True)',
+                                  'return sptenmat(self.subs, self.vals, self.rdims, self.cdims, self.tshape, copy=True)'],
+ 'pyttb.tenmat.tenmat.ctranspose': ['call tenmat(copy=True)',
+                                    'return tenmat(self.data.conj().T, self.cindices, self.rindices, self.tshape, copy=True)'],
+ 'pyttb.tenmat.tenmat.double': ['call to_memory_order(copy=True)',
+                                'call to_memory_order(self.data, self.order, copy=True).astype()',
+                                'return to_memory_order(self.data, self.order, copy=True).astype(np.float64)'],
+ 'pyttb.tenmat.tenmat.to_tensor': ['call np.hstack()',
+                                   'call self.data.copy()',
+                                   'call np.array()',
+                                   'call np.reshape(order=self.order)',
+                                   'call np.transpose()',
+                                   'call to_memory_order()',
+                                   'call ttb.tensor(copy=False)',
+                                   'return ttb.tensor(data, shape, copy=False)'],
+ 'pyttb.ttensor.ttensor.__init__': ['call ttb.tensor()',
+                                    'store self.core = ttb.tensor()',
+                                    'store self.factor_matrices = []',
+                                    'return ',
+                                    'call core.copy()',
+                                    'store self.core = core.copy()',
+                                    'call to_memory_order(copy=True)',
+                                    'store self.factor_matrices = [to_memory_order(fm, self.order, copy=True) for fm in factors]',
+                                    'call to_memory_order(copy=True)',
+                                    'store self.core = core',
+                                    'store self.factor_matrices = factors',
+                                    'call list()',
+                                    'store self.factor_matrices = list(factors)',
+                                    'return '],
+ 'pyttb.ttensor.ttensor.copy': ['call ttb.ttensor(copy=True)', 'return ttb.ttensor(self.core, self.factor_matrices, copy=True)']})
+#EXPECTED-W4-END
 #EXPECTED-END
